@@ -128,7 +128,7 @@ structure Client where
   deriving DecidableEq, Repr
 
 /-- bytes arrive (`connector.serviceReceives()`), then the body of `serviceResponse`
-(not redirectable, not an event stream): `if self.waited: parse()`; when `ended` the response is
+(not redirectable; an event-stream response delivers events, it is not recorded as a response): `if self.waited: parse()`; when `ended` the response is
 recorded with its `errored` flag and `makeParser()` prepares the next one -/
 def Client.recv (c : Client) (b : Bytes) : Client :=
   if c.raised then c else
@@ -137,7 +137,8 @@ def Client.recv (c : Client) (b : Bytes) : Client :=
   let s' := parse s
   if parseRaises s s' then { c with rsp := s', raised := true }
   else if s'.core.ended = some true then
-    { c with rsp := makeParser s', waited := false, responses := c.responses ++ [s'.core.errored] }
+    if s'.core.evented = some true then { c with rsp := makeParser s' }   -- `if not self.respondent.evented:` no response recorded
+    else { c with rsp := makeParser s', waited := false, responses := c.responses ++ [s'.core.errored] }
   else { c with rsp := s' }
 
 /-- `connector.cutoff`: `respondent.close()` in `serviceAll`, then `serviceResponse` -/
